@@ -579,6 +579,11 @@ func (c *VirtualTable) Insert(ctx context.Context, values map[int]interface{}) (
 	if ok && (!old.Deleted || ot.Add(old.DeleteUpdateOffset.AsDuration()).After(t)) {
 		return 0, ErrS3DBConstraintPrimaryKey
 	}
+	for i, col := range c.schema.Columns {
+		if col.NotNull && i != c.KeyCol && values[i] == nil {
+			return 0, ErrS3DBConstraintNotNull
+		}
+	}
 	new.ColumnValues = make(map[string]*v1proto.ColumnValue)
 	for i, v := range values {
 		if i == c.KeyCol {
@@ -617,6 +622,11 @@ func (c *VirtualTable) Update(ctx context.Context, key interface{}, values map[i
 	}
 	if !ok || old.Deleted {
 		return nil
+	}
+	for i, v := range values {
+		if v == nil && i != c.KeyCol && c.schema.Columns[i].NotNull {
+			return ErrS3DBConstraintNotNull
+		}
 	}
 	new.ColumnValues = make(map[string]*v1proto.ColumnValue)
 	for i, v := range values {
